@@ -230,8 +230,13 @@ func ruleMapKeyAgreement(c *Ctx, rule string, pkg, typ, field, what string) {
 			continue
 		}
 		info := fn.Info()
+		var keyOfIn func(fn *FuncInfo, k ast.Expr, depth int)
 		keyOf := func(k ast.Expr) {
 			n++
+			keyOfIn(fn, k, 0)
+		}
+		keyOfIn = func(fn *FuncInfo, k ast.Expr, depth int) {
+			info := fn.Info()
 			d := ast.Unparen(derefExpr(fn, k))
 			name := "?"
 			switch t := d.(type) {
@@ -239,6 +244,20 @@ func ruleMapKeyAgreement(c *Ctx, rule string, pkg, typ, field, what string) {
 				name = t.Sel.Name
 			case *ast.Ident:
 				name = "var " + t.Name
+				// a parameter: what the callers pass
+				if pv, ok := info.ObjectOf(t).(*types.Var); ok && depth < 2 {
+					if pi := paramIndex(fn, pv); pi >= 0 {
+						sites := p.CallsTo(nil, fn.Obj)
+						if len(sites) > 0 {
+							for _, cs := range sites {
+								if pi < len(cs.Call.Args) {
+									keyOfIn(cs.Fn, cs.Call.Args[pi], depth+1)
+								}
+							}
+							return
+						}
+					}
+				}
 				if o := info.ObjectOf(t); o != nil {
 					if _, isRangeKey := o.(*types.Var); isRangeKey {
 						// a range key over the same map is the map's own key
